@@ -97,6 +97,7 @@ func registerIntrinsics(ex *Executor) {
 	}
 	I["@verifReach"] = func(ex *Executor, st *State, cc *CallCtx, args []Val) (Val, ctl) {
 		ex.Stats.Reach[strArg(args[0])]++
+		st.Reached = append(st.Reached[:len(st.Reached):len(st.Reached)], strArg(args[0]))
 		return nil, cNext
 	}
 	I["@verifNote"] = func(ex *Executor, st *State, cc *CallCtx, args []Val) (Val, ctl) {
@@ -139,6 +140,9 @@ func registerIntrinsics(ex *Executor) {
 	}
 	I["@verifHeldLocks"] = func(ex *Executor, st *State, cc *CallCtx, args []Val) (Val, ctl) {
 		return smt.IntC(int64(len(st.th().Locks))), cNext
+	}
+	I["@verifNoLocksHeld"] = func(ex *Executor, st *State, cc *CallCtx, args []Val) (Val, ctl) {
+		return smt.BoolC(len(st.th().Locks) == 0), cNext
 	}
 	I["@verifShare"] = func(ex *Executor, st *State, cc *CallCtx, args []Val) (Val, ctl) {
 		ex.markShared(st, args[0])
